@@ -19,8 +19,8 @@ LINEAGE = "prqlc/prqlc/src/ir/pl/lineage.rs"
 IDENT = "prqlc/prqlc-parser/src/parser/pr/ident.rs"
 INFERENCE = "prqlc/prqlc/src/semantic/resolver/inference.rs"
 
-LABELS = ["LE1", "LE2", "LE3", "IC1", "IC2"]
-FUNCTIONS = ["excludes_one", "except_from_star", "is_column_named", "declare_if_new"]
+LABELS = ["LE1", "LE2", "LE3", "IC1", "IC2", "SH1"]
+FUNCTIONS = ["excludes_one", "except_from_star", "is_column_named", "declare_if_new", "shadow_one"]
 RLIMIT = 60
 
 ASSUMED = [
@@ -30,10 +30,12 @@ ASSUMED = [
      "keys": ["struct StrSet", "fn view", "fn contains", "fn insert", "fn opt_ident_eq", "spec fn same_ident"]},
     {"what": "Ident::iter().next().unwrap() is the first segment of the identifier (ident_first: path[0], or the name of a one-segment identifier); &String == &String / "
              "&String == &str compare the character sequences; String::clone / str::to_string keep them",
-     "keys": ["fn ident_first", "spec fn first_seg", "fn string_eq", "fn str_eq", "fn clone_string", "fn str_to_string"]},
+     "keys": ["fn ident_first", "spec fn first_seg", "fn string_eq", "fn str_eq", "fn clone_string", "fn str_to_string", "fn same_bare_name"]},
     common_std.STR_PREDS_ASSUMPTION,
 ]
 TRUSTED = [
+    "oracle (C10, SH1): a column defined by derive / select under a name takes that name away from EVERY earlier column that carries it - whatever input it came from: after "
+    "`derive x = a.x + b.x` neither `a.x` nor `b.x` can be referred to any more (the loop over the columns is dropped by the slice: the contract is on what happens to ONE column)",
     "oracle (C16 / C05, LE3): `select !{e.salary}` over `e.*` adds `salary` to the star's exception list exactly when the column is qualified with the LOCAL NAME of the star's "
     "input (the alias `e`), which is how every column of that input is named in the frame; lowering computes the same exclusion by column id, and the two must agree or the "
     "final Select refers to a column that is not visible any more",
@@ -70,6 +72,10 @@ pub open spec fn first_seg(i: Ident) -> String { if i.path@.len() > 0 { i.path@[
 #[verifier::external_body] pub fn clone_string(s: &String) -> (r: String) ensures r == *s, { unimplemented!() }
 #[verifier::external_body] pub fn str_to_string(s: &str) -> (r: String) ensures r@ == s@, { unimplemented!() }
 pub struct LineageInput { pub id: usize, pub name: String, pub table: Ident }
+#[verifier::external_body]
+pub fn same_bare_name(a: &Option<Ident>, b: &Option<Ident>) -> (r: bool)
+    ensures r == ((*a is None && *b is None) || (*a is Some && *b is Some && a->0.name@ == b->0.name@)),
+{ unimplemented!() }
 pub type Ty = OpaqueT;
 pub open spec fn same_ident(a: Option<Ident>, b: Option<Ident>) -> bool { a == b }
 #[verifier::external_body] pub fn opt_ident_eq(a: &Option<Ident>, b: &Option<Ident>) -> (r: bool) ensures r == same_ident(*a, *b), { unimplemented!() }
@@ -150,7 +156,26 @@ def build(X):
               "            && final(columns)@.last() is Single && final(columns)@.last()->Single_0 is Some && final(columns)@.last()->Single_0->0@ == col_name@), // @IC2\n"
               "{\n    " + d.text + "\n}\n")
     d.rewrites.append({"rule": "slice", "what": "statements `if exists { return Ok(()); } columns.push(..);` of infer_table_column wrapped as fn declare_if_new(columns, exists, col_name)"})
-    return (PRELUDE + common_std.STR_PREDS + ident.text + "\n" + lc.text + "\n" + SHIMS + ty_field.text + "\n" + f.text + "\n" + ar.text + "\n" + g.text + "\n" + d.text
+    # ---- shadowing: what a newly defined column does to ONE earlier column
+    sh = X.fn(TRANSFORMS, "apply_assign")
+    msh = re.search(r"for c in &mut self\.columns \{", sh.text)
+    if not msh:
+        raise ExtractionError("apply_assign: the loop `for c in &mut self.columns { .. }` that removes the names of shadowed columns was not found")
+    stoks = code_tokens(sh.text)
+    ks = next(i for i, t in enumerate(stoks) if t[1] == msh.end() - 1)
+    sh.name = "shadow_one"
+    sh.text = sh.text[stoks[ks][2]:stoks[match_brace(sh.text, stoks, ks)][1]]
+    sh.rewrites.append({"rule": "slice", "what": "body of `for c in &mut self.columns { .. }` (removal of the names of shadowed columns in Lineage::apply_assign) wrapped as fn shadow_one(c, name); the loop is dropped"})
+    sh.rewrite_re("R5", r"n\.as_ref\(\)\.map\(\|i\| &i\.name\) == name\.as_ref\(\)\.map\(\|i\| &i\.name\)", "same_bare_name(&*n, name)", count=None, why="comparison of the bare names of two optional identifiers")
+    sh.text = ("pub fn shadow_one(c: &mut LineageColumn, name: &Option<Ident>)\n"
+               "    requires *name is Some,\n"
+               "    ensures\n"
+               "        // a column that carries the new column's bare name loses its name; every other column is untouched\n"
+               "        (*old(c) is Single && old(c)->Single_name is Some && old(c)->Single_name->0.name@ == name->0.name@)\n"
+               "            ==> (*final(c) is Single && final(c)->Single_name is None && final(c)->Single_target_id == old(c)->Single_target_id && final(c)->Single_target_name == old(c)->Single_target_name),\n"
+               "        !(*old(c) is Single && old(c)->Single_name is Some && old(c)->Single_name->0.name@ == name->0.name@) ==> *final(c) == *old(c), // @SH1\n"
+               "{\n    " + sh.text + "\n}\n")
+    return (PRELUDE + common_std.STR_PREDS + ident.text + "\n" + lc.text + "\n" + SHIMS + ty_field.text + "\n" + f.text + "\n" + ar.text + "\n" + g.text + "\n" + d.text + "\n" + sh.text
             + "\n} // verus!\nfn main() {}\n")
 
 
